@@ -56,9 +56,11 @@ Zero == [n \in 1..M |-> 0]
 
 (* legacy: shop_item exists as 0001_initial would create it - made by hand or by syncdb long
    ago - and neither Django nor Django Evolution has recorded anything about the app *)
-Starts == {<<"fresh", 0>>, <<"legacy", 0>>} \cup { <<"evo", j>> : j \in 0..P } \cup { <<"onmig", m0>> : m0 \in S..(M - 1) }
+Starts == {<<"fresh", 0>>, <<"legacy", 0>>} \cup { <<"evo", j>> : j \in 0..P } \cup { <<"onmig", m0>> : m0 \in (IF S = 0 THEN 1 ELSE S)..(M - 1) }
 
-Init == /\ K \in 0..MaxK /\ S \in 1..M
+(* S = 0: MoveToDjangoMigrations(mark_applied=[]) - no migration is covered by the evolutions; even the
+   initial one is left to the executor, which finds the table in place and takes it over (soft) *)
+Init == /\ K \in 0..MaxK /\ S \in 0..M
         /\ start \in Starts
         /\ companions \in SUBSET {"blog", "mig"}
         \* only when an evolution with SQL is pending is there a statement to fail at
@@ -162,7 +164,7 @@ RecordedExactlyOnce == Done => \A n \in 1..M : migRecorded[n] = 1
 MarkedNotExecuted == (Done /\ run = 1 /\ start[1] = "evo") => \A i \in 1..Len(migExecuted) : migExecuted[i] > S
 RemainingExecutedInOrder ==
     Done => /\ \A i \in 1..(Len(migExecuted) - 1) : migExecuted[i] < migExecuted[i + 1]
-            /\ (run = 1 /\ start[1] = "evo") => SeqSet(migExecuted) = (S + 1)..M
+            /\ (run = 1 /\ start[1] = "evo") => SeqSet(migExecuted) \cup SeqSet(soft) = (S + 1)..M
 PendingEvolutionsFirst == (Done /\ run = 1 /\ start[1] = "evo") =>
                              evoExecuted = SubSeq(AllEvos, start[2] + 1, Len(AllEvos))
 SignatureListsRecorded == Done => sigMethod = "migrations" /\ sigApplied = Recorded
@@ -170,7 +172,8 @@ SchemaComplete == Done => columns = ColsOfMigs(1..M)
 NoEvolutionSqlOnceOnMigrations == (Done /\ (run = 2 \/ start[1] = "onmig")) => evoExecuted = <<>>
 RerunIsNoop == (Done /\ run = 2) => evoExecuted = <<>> /\ migExecuted = <<>> /\ soft = <<>>
 (* only a table nobody has on record is taken over that way, and only its initial migration *)
-SoftOnlyLegacyInitial == soft # <<>> => (soft = <<1>> /\ start[1] = "legacy" /\ run = 1)
+SoftOnlyLegacyInitial == soft # <<>> => (soft = <<1>> /\ run = 1
+                                         /\ (start[1] = "legacy" \/ (start[1] = "evo" /\ S = 0)))
 
 (* the companion apps: `blog` (evolutions only, one pending evolution b1) and `mig`
    (migrations only, 0001_initial applied, 0002 pending); on a fresh database blog's
